@@ -764,3 +764,12 @@ pub fn node(max_zoom: u8, depth: u32) -> BoxedStrategy<Node> {
 		.boxed()
 }
 
+
+impl Source {
+	pub fn tilejson_string(&self) -> String {
+		match self {
+			Source::Reader(r) => r.get_tilejson().as_string(),
+			Source::Op(o) => o.get_tilejson().as_string(),
+		}
+	}
+}
